@@ -127,6 +127,9 @@ class RunCtx(object):
             cls = EXC_CLASSES[cname]
             if mode == "fields":
                 def fn(e, cname=cname):
+                    sc = self.sched
+                    if sc is not None and sc.p_switch and _sched.current_actor() is not None:
+                        sc.yield_point("in-extractor")      # a slow extractor: other threads fail meanwhile
                     return {"xcls": cname, "xlen": len(exc_text(e))}
                 self.register_extractor(cls, fn)
             elif mode == "collide":
